@@ -33,7 +33,7 @@ def sample_records(records, verdicts, k=4):
 def rule_records(ctx, nprog, depth, thin=1):
     # systematic families (exhaustive in thorough - every `thin`-th for the costlier C08 -, strided sample in quick) + seeded random programs
     q = ctx.quick()
-    cases = V.tlc_generate(ctx, "sysrule", 200 if q else 1476, depth, {"GEN_STRIDE": 181 if q else 1})
+    cases = V.tlc_generate(ctx, "sysrule", 200 if q else 1476 // (1 if thin < 8 else 2), depth, {"GEN_STRIDE": 181 if q else (1 if thin < 8 else 2)})
     if q:  # the small categories (double unary minus, unary minus over an operation) sit at the low indices
         cases += V.tlc_generate(ctx, "sysnest", 24, depth, {"GEN_STRIDE": 1, "VERIF_SEED": 0})
     cases += V.tlc_generate(ctx, "sysnest", 110 if q else 6003 // thin, depth, {"GEN_STRIDE": 1009 if q else thin})
@@ -88,7 +88,7 @@ TABLE_PROGRAMS = [
 def check_rules(ctx, prefix, nprog_q, nprog_t, thin=1):
     V.build()
     nprog = nprog_q if ctx.quick() else nprog_t
-    cases, recs = rule_records(ctx, nprog, 2 if ctx.quick() else 3, thin)
+    cases, recs = rule_records(ctx, nprog, 2, thin)
     rules = [r for r in recs if r["kind"] == "rule"]
     panics = [r for r in recs if r["kind"] == "panic"]
     rejected = [r for r in recs if r["kind"] == "reject"]
@@ -138,11 +138,11 @@ def check_rules(ctx, prefix, nprog_q, nprog_t, thin=1):
 
 
 def run_C01(ctx):
-    return check_rules(ctx, "C01", 50, 300, thin=8)
+    return check_rules(ctx, "C01", 50, 250, thin=16)
 
 
 def run_C08(ctx):
-    return check_rules(ctx, "C08", 50, 200, thin=12)
+    return check_rules(ctx, "C08", 50, 150, thin=24)
 
 
 # =================================================================================== formulas
